@@ -85,22 +85,22 @@ def unit_compute(model, sizes):
     return recs
 
 
-def unit_rate(model, sizes, perm, player_order=None):
+def unit_rate(model, sizes, perm, player_order=None, limit=False):
     """perm: presentation order of the teams; player_order: {team: order of its players} in presentation B"""
     n = len(sizes)
     player_order = dict(player_order or {})
     S = extract.Scratch(model)
     game.stub_tm_real(S)
     game.stub_phi_real(S)
-    shape = f"sizes={sizes},pi={perm}" + (f",players={player_order}" if player_order else "")
+    shape = f"sizes={sizes},pi={perm}" + (f",players={player_order}" if player_order else "") + (",limit_sigma=True" if limit else "")
     fn = f"{model}.rate"
     ctx = Ctx("R", feas_timeout_ms=300)
     recs = []
     stats = {"paths": 0, "skipped": 0}
 
     def run(ctx):
-        mA, params = game.mk_model(ctx, S)
-        mB, _ = game.mk_model(ctx, S)
+        mA, params = game.mk_model(ctx, S, limit_sigma=limit)
+        mB, _ = game.mk_model(ctx, S, limit_sigma=limit)
         ctx.assume(term(params["kappa"]) <= 1)
         r = [ctx.number(f"r{i}", kinds=(KINT, KFLOAT)) for i in range(n)]
         tA = game.mk_teams(ctx, S, sizes)
@@ -122,6 +122,7 @@ def unit_rate(model, sizes, perm, player_order=None):
                         return
         rp = _rp(model, sizes, None)
         rp["perm"] = list(perm)
+        rp["limit"] = limit
         if oa[0] != "return" or ob[0] != "return":
             recs.append(driver.rec(f"C04/{model}/rate/presentation@{shape}", "refuted", "explorer", 0, fn=fn, shape=shape, replay=rp))
             return
@@ -169,6 +170,9 @@ def units(tier):
             for perm in itertools.permutations(range(n)):
                 if list(perm) != list(range(n)):
                     us.append(("unit_rate", (m, sizes, perm)))
+        # the limit_sigma clamp pairs each result with its own prior whatever the presentation
+        for sizes, perm in ([((1, 1), (1, 0)), ((2, 1), (1, 0))] if tier == "quick" else [((1, 1), (1, 0)), ((1, 1, 1), (1, 2, 0)), ((1, 1, 1), (2, 1, 0)), ((2, 1), (1, 0))]):
+            us.append(("unit_rate", (m, sizes, perm, None, True)))
         # players of one team listed in another order, teams in place, symbolic ranks (ties are paths)
         for sizes, po in ([((2, 1), {0: [1, 0]}), ((2, 1, 1), {0: [1, 0]}), ((1, 2, 2), {1: [1, 0]})] if tier == "quick" else
                           [((2, 1), {0: [1, 0]}), ((2, 1, 1), {0: [1, 0]}), ((1, 2, 2), {1: [1, 0]}), ((1, 2, 2), {2: [1, 0]}), ((3, 1, 2), {0: [2, 0, 1]})]):
